@@ -177,6 +177,8 @@ struct World {
     home_idle: AtomicBool,
     /// handle jobs not yet finished (waker threads' drops + the solo join/cancel threads)
     jobs_left: AtomicUsize,
+    /// threads parked inside a join / cancel+await, waiting for the join waker
+    blocked: Arc<AtomicUsize>,
 }
 
 /// Wake requests for one helper thread; the sender unparks the receiver.
@@ -309,6 +311,19 @@ struct ThreadWaker {
     thread: Thread,
     flag: AtomicBool,
     count: AtomicU32,
+    /// the thread is parked waiting for this waker and has been counted in `blocked`
+    waiting: AtomicBool,
+    blocked: Mutex<Option<Arc<AtomicUsize>>>,
+}
+
+impl ThreadWaker {
+    fn uncount(&self) {
+        if self.waiting.swap(false, SeqCst) {
+            if let Some(b) = self.blocked.lock().unwrap().as_ref() {
+                b.fetch_sub(1, SeqCst);
+            }
+        }
+    }
 }
 
 impl Wake for ThreadWaker {
@@ -319,6 +334,8 @@ impl Wake for ThreadWaker {
     fn wake_by_ref(self: &Arc<Self>) {
         self.flag.store(true, SeqCst);
         self.count.fetch_add(1, SeqCst);
+        // from this moment the thread is no longer "blocked for good", whether or not it has run yet
+        self.uncount();
         self.thread.unpark();
     }
 }
@@ -328,23 +345,35 @@ fn thread_waker() -> (Arc<ThreadWaker>, Waker) {
         thread: thread::current(),
         flag: AtomicBool::new(false),
         count: AtomicU32::new(0),
+        waiting: AtomicBool::new(false),
+        blocked: Mutex::new(None),
     });
     (tw.clone(), Waker::from(tw))
 }
 
 /// Block the calling logical thread on a future, parking between polls.
-fn block_on_parked<F: Future>(fut: F) -> F::Output {
+fn block_on_parked<F: Future>(fut: F, blocked: &Arc<AtomicUsize>) -> F::Output {
     let mut fut = std::pin::pin!(fut);
     let (tw, waker) = thread_waker();
+    *tw.blocked.lock().unwrap() = Some(blocked.clone());
     let mut cx = Context::from_waker(&waker);
     loop {
         tw.flag.store(false, SeqCst);
         if let Poll::Ready(v) = fut.as_mut().poll(&mut cx) {
             return v;
         }
+        // counted as blocked from here until its waker fires (not until it runs again)
+        if !tw.flag.load(SeqCst) {
+            blocked.fetch_add(1, SeqCst);
+            tw.waiting.store(true, SeqCst);
+            if tw.flag.load(SeqCst) {
+                tw.uncount();
+            }
+        }
         while !tw.flag.load(SeqCst) {
             thread::park();
         }
+        tw.uncount();
     }
 }
 
@@ -411,6 +440,7 @@ fn body(prog: &Program) {
         busy: AtomicUsize::new(0),
         home_idle: AtomicBool::new(false),
         jobs_left: AtomicUsize::new(0),
+        blocked: Arc::new(AtomicUsize::new(0)),
     });
     let home_thread = thread::current();
     let (home_tw, home_waker) = thread_waker();
@@ -575,30 +605,26 @@ fn body(prog: &Program) {
                 );
             }
             let left = world.jobs_left.load(SeqCst);
-            let waker_jobs_pending = left > 0;
-            if waker_jobs_pending {
-                // either a drop job a waker thread has not taken yet (it will: keep going) or a blocked join/cancel
-                let solo_blocked = left;
-                let _ = solo_blocked;
-            }
-            if left == 0 || quiescent_rounds > 2 * (prog.threads as u32 + prog.tasks.len() as u32 + 1) {
-                if left > 0 {
-                    sim::raise(
-                        "join-never-resolved",
-                        format!("{left} handle job(s) on other threads (join / cancel+await) still blocked at quiescence: their task finished or can never run again, but the waiting thread was not woken"),
-                    );
-                }
+            if left == 0 {
                 break;
             }
-            quiescent_rounds += 1;
-            // let the helpers run once more
+            if world.blocked.load(SeqCst) == left {
+                // every remaining job is a thread parked on a join waker, and nothing is left that could fire it
+                sim::raise(
+                    "join-never-resolved",
+                    format!("{left} thread(s) parked in a join / cancel+await at quiescence: no task is runnable and every requested wake was delivered, so their task has finished or can never run again, but the join waker was not woken"),
+                );
+                break;
+            }
+            // some helper still has work it has not been scheduled for: get out of its way. It unparks us
+            // when it is done; if it blocks for good instead, every thread is blocked and that is a deadlock.
             for i in &inboxes {
                 if let Some(t) = i.thread.lock().unwrap().as_ref() {
                     t.unpark();
                 }
             }
-            // a real yield: the scheduler must run somebody else if anybody can run
-            thread::yield_now();
+            let _ = quiescent_rounds;
+            thread::park();
             continue;
         }
         quiescent_rounds = 0;
@@ -695,7 +721,7 @@ fn deliver(msg: Msg, stats: &[Arc<Stats>]) {
 fn run_job(job: ThreadJob, world: &World, stats: &[Arc<Stats>], results: &Mutex<Vec<Option<Joined>>>) {
     match job {
         ThreadJob::Join(i, h) => {
-            let r = block_on_parked(h);
+            let r = block_on_parked(h, &world.blocked);
             results.lock().unwrap()[i] = Some(classify(r));
         }
         ThreadJob::Drop(i, h) => {
@@ -704,7 +730,7 @@ fn run_job(job: ThreadJob, world: &World, stats: &[Arc<Stats>], results: &Mutex<
         }
         ThreadJob::Cancel(i, h) => {
             // cancel() cancels and then waits for the outcome
-            let _ = block_on_parked(h.cancel());
+            let _ = block_on_parked(h.cancel(), &world.blocked);
             let prev = stats[i].cancelled_epoch.load(SeqCst);
             if prev == u64::MAX {
                 stats[i].cancelled_epoch.store(world.epoch.load(SeqCst), SeqCst);
